@@ -714,6 +714,13 @@ func ruleNoNarrowing(c *Ctx, rule string) {
 								if w < bits {
 									bad = append(bad, fmt.Sprintf("%s at %s", bt.Name(), p.pos(x.Pos())))
 								}
+								// same width, other signedness: ParseInt(…, 32) refuses the upper
+								// half of a uint32 (and lets negatives wrap), ParseUint(…, 64)
+								// overflows an int64
+								unsignedTarget := bt.Info()&types.IsUnsigned != 0
+								if w == bits && bt.Kind() != types.Int && bt.Kind() != types.Uint && unsignedTarget != (obj.Name() == "ParseUint") {
+									bad = append(bad, fmt.Sprintf("%s at %s (parsed with %s: sign domain differs)", bt.Name(), p.pos(x.Pos()), obj.Name()))
+								}
 							}
 						}
 					}
@@ -724,7 +731,7 @@ func ruleNoNarrowing(c *Ctx, rule string) {
 				}
 			}
 			c.check(len(bad) == 0, rule, key, call.Pos(), fmt.Sprintf("parsed with bitSize %d, never converted to a narrower integer", bits),
-				fmt.Sprintf("parsed with bitSize %d and then converted to %s: numbers above the target's maximum wrap around silently instead of being refused (e.g. 4294967297 delivered as 1, 4294967296 as the invalid number 0)", bits, strings.Join(bad, ", ")))
+				fmt.Sprintf("parsed with %s bitSize %d and then converted to %s: the parser's domain is not the target's range — out-of-range numbers wrap around silently (e.g. 4294967297 delivered as 1) or legal ones are refused (e.g. a UID of 3000000000)", obj.Name(), bits, strings.Join(bad, ", ")))
 		})
 	}
 	if n < 5 {
